@@ -63,7 +63,9 @@ Record config := Config {
   w_cursor : bool;               (* the rendered canvas has a cursor *)
   c_launcher : bool;             (* the body is wrapped in a PopUpLauncher: key 111 ('o') opens its pop-up;
                                     create_pop_up() returns the same (cached) widget every time *)
-  w_pop_keys : list Z            (* keys the pop-up widget handles; key 120 ('x') makes it close the pop-up *)
+  w_pop_keys : list Z;           (* keys the pop-up widget handles; key 120 ('x') makes it close the pop-up *)
+  c_second_run : bool            (* the application calls run() a second time on the same MainLoop and Screen
+                                    (after a normal return, or after catching the exception run() raised) *)
 }.
 
 (* the terminal (what the escape sequences, termios and signal calls act on) *)
@@ -90,8 +92,10 @@ Record st := St {
   scr : screen;
   tm : term;
   size_known : bool;             (* MainLoop.screen_size is not None *)
-  connected : bool;              (* INPUT_DESCRIPTORS_CHANGED connected to _reset_input_descriptors *)
-  idle_reg : bool;               (* MainLoop.idle_handle registered with the event loop *)
+  connected : nat;               (* how many times _reset_input_descriptors is connected to INPUT_DESCRIPTORS_CHANGED
+                                    (connect_signal appends; only MainLoop.stop() disconnects one) *)
+  idle_reg : nat;                (* how many MainLoop.entering_idle callbacks the event loop holds (enter_idle adds
+                                    one; only MainLoop.stop() removes the latest) *)
   hooked : bool;                 (* the screen's watches are registered with the event loop *)
   alarms : list alarm;           (* event_loop._alarms, all due, in firing order *)
   wstate : Z;                    (* the widget's state: how many inputs it handled so far; an unchanged widget
@@ -132,9 +136,9 @@ Definition upd_tm (f : term -> term) : M unit :=
   fun s => (ROk tt, St (n s) (tr s) (scr s) (f (tm s)) (size_known s) (connected s) (idle_reg s) (hooked s) (alarms s) (wstate s) (buf_ok s) (buf_canvas s) (l_pop s) (t_pop s) (t_overlay s)).
 Definition set_size_known (b : bool) : M unit :=
   fun s => (ROk tt, St (n s) (tr s) (scr s) (tm s) b (connected s) (idle_reg s) (hooked s) (alarms s) (wstate s) (buf_ok s) (buf_canvas s) (l_pop s) (t_pop s) (t_overlay s)).
-Definition set_connected (b : bool) : M unit :=
+Definition set_connected (b : nat) : M unit :=
   fun s => (ROk tt, St (n s) (tr s) (scr s) (tm s) (size_known s) b (idle_reg s) (hooked s) (alarms s) (wstate s) (buf_ok s) (buf_canvas s) (l_pop s) (t_pop s) (t_overlay s)).
-Definition set_idle_reg (b : bool) : M unit :=
+Definition set_idle_reg (b : nat) : M unit :=
   fun s => (ROk tt, St (n s) (tr s) (scr s) (tm s) (size_known s) (connected s) b (hooked s) (alarms s) (wstate s) (buf_ok s) (buf_canvas s) (l_pop s) (t_pop s) (t_overlay s)).
 Definition set_hooked (b : bool) : M unit :=
   fun s => (ROk tt, St (n s) (tr s) (scr s) (tm s) (size_known s) (connected s) (idle_reg s) b (alarms s) (wstate s) (buf_ok s) (buf_canvas s) (l_pop s) (t_pop s) (t_overlay s)).
@@ -221,9 +225,16 @@ Definition hook_event_loop : M unit := emit THook ;;; set_hooked true.
 (* MainLoop._reset_input_descriptors *)
 Definition reset_input_descriptors : M unit := unhook_event_loop ;;; hook_event_loop.
 
-(* signals.emit_signal(self, INPUT_DESCRIPTORS_CHANGED) *)
+(* signals.emit_signal(self, INPUT_DESCRIPTORS_CHANGED): every connected handler is
+   MainLoop._reset_input_descriptors (unhook, hook).  Closed form of the loop over the [k] handlers:
+   the trace gets k times TUnhook, THook; the watches are registered afterwards when k > 0. *)
+Fixpoint reset_trace (k : nat) : list tev :=
+  match k with O => [] | S k' => THook :: TUnhook :: reset_trace k' end.
 Definition emit_descriptors_changed : M unit :=
-  b <- get connected ;; if b then reset_input_descriptors else ret tt.
+  fun s => (ROk tt,
+            St (n s) (reset_trace (connected s) ++ tr s) (scr s) (tm s) (size_known s) (connected s) (idle_reg s)
+               (match connected s with O => hooked s | S _ => true end)
+               (alarms s) (wstate s) (buf_ok s) (buf_canvas s) (l_pop s) (t_pop s) (t_overlay s)).
 
 (* Screen._mouse_tracking (base class; the gpm part needs /usr/bin/mev on a linux console) *)
 Definition mouse_tracking (enable : bool) : M unit :=
@@ -461,16 +472,16 @@ Definition ml_start : M unit :=
   screen_start ;;;
   (if c_handle_mouse c then set_mouse_tracking else ret tt) ;;;
   if c_hook c then
-    set_connected true ;;;
+    cn <- get connected ;; set_connected (S cn) ;;;     (* signals.connect_signal(...) *)
     reset_input_descriptors ;;;
-    set_idle_reg true ;;;
+    ir <- get idle_reg ;; set_idle_reg (S ir) ;;;       (* self.idle_handle = self.event_loop.enter_idle(self.entering_idle) *)
     al <- get alarms ;; set_alarms (al ++ [AEnteringIdle])
   else raise CantUseExternalLoop.
 
 (* MainLoop.stop *)
 Definition ml_stop : M unit :=
-  set_idle_reg false ;;;
-  set_connected false ;;;
+  ir <- get idle_reg ;; set_idle_reg (pred ir) ;;;      (* remove_enter_idle(self.idle_handle); del self.idle_handle *)
+  cn <- get connected ;; set_connected (pred cn) ;;;    (* signals.disconnect_signal(...) *)
   unhook_event_loop ;;;
   screen_stop.
 
@@ -490,9 +501,38 @@ Definition deliver (e : event) : M unit :=
   | EFile id => cb (TFile id)
   end.
 
-(* one scripted round: the events that arrived while the loop waited, then the idle callbacks *)
+(* alarms are kept in the loop's heap until they fire: what a run() leaves behind fires in the next one *)
+Definition pop_alarm : M (option alarm) :=
+  al <- get alarms ;;
+  match al with
+  | [] => ret None
+  | a :: r => set_alarms r ;;; ret (Some a)
+  end.
+Fixpoint fire_n (k : nat) : M unit :=
+  match k with
+  | O => ret tt
+  | S k' => nx <- pop_alarm ;; match nx with None => ret tt | Some a => fire_alarm a ;;; fire_n k' end
+  end.
+(* every due alarm, in heap order (callbacks do not schedule alarms) *)
+Definition fire_pending : M unit := al <- get alarms ;; fire_n (length al).
+
+Fixpoint repeat_m (k : nat) (m : M unit) : M unit :=
+  match k with O => ret tt | S k' => m ;;; repeat_m k' m end.
+(* SelectEventLoop._entering_idle: every registered idle callback (all are MainLoop.entering_idle) *)
+Definition idle_round : M unit := k <- get idle_reg ;; repeat_m k entering_idle.
+
+Definition alarm_ids (r : list event) : list alarm :=
+  flat_map (fun e => match e with EAlarm i => [AUser i] | _ => [] end) r.
+Definition deliver_fd (e : event) : M unit :=
+  match e with EAlarm _ => ret tt | _ => deliver e end.
+
+(* one scripted round: the events that arrived while the loop waited - set_alarm_in pushes onto the heap,
+   ready descriptors are served before due alarms - then the idle callbacks *)
 Definition do_round (r : list event) : M unit :=
-  for_each deliver r ;;; entering_idle ;;; emit TWait.
+  (al <- get alarms ;; set_alarms (al ++ alarm_ids r)) ;;;
+  for_each deliver_fd r ;;;
+  fire_pending ;;;
+  idle_round ;;; emit TWait.
 
 (* the harness ends every session with an alarm raising ExitMainLoop *)
 Definition quit : M unit := emit TQuit ;;; raise ExitMainLoop.
@@ -500,22 +540,14 @@ Definition quit : M unit := emit TQuit ;;; raise ExitMainLoop.
 (* SelectEventLoop.run: due alarms, idle, rounds ...; ExitMainLoop is swallowed here *)
 Definition event_loop_run (rounds : list (list event)) : M unit :=
   suppress_exit (
-    al <- get alarms ;; set_alarms [] ;;;
-    for_each fire_alarm al ;;;
-    entering_idle ;;;
+    fire_pending ;;;
+    idle_round ;;;
     emit TWait ;;;
     for_each do_round rounds ;;;
     quit).
 
 (* ---------------- MainLoop._run_screen_event_loop ---------------- *)
 (* `while next_alarm:` (every alarm is due) callback(); next_alarm = heappop(...) or None *)
-Definition pop_alarm : M (option alarm) :=
-  al <- get alarms ;;
-  match al with
-  | [] => ret None
-  | a :: r => set_alarms r ;;; ret (Some a)
-  end.
-
 Fixpoint fire_all (fuel : list alarm) (next : option alarm) : M unit :=
   match next with
   | None => ret tt
@@ -578,20 +610,31 @@ Definition session (rounds : list (list event)) (inputs : list (list key)) : M u
 
 End WithConfig.
 
+(* run(), and - when asked for - run() once more from whatever the first one left behind: nothing new is
+   scripted and no fault is planned for the second run (the harness ends it at its first wait) *)
+Definition run_twice (c : config) (p : list (Z * fault)) (rounds : list (list event)) (inputs : list (list key))
+    (s0 : st) : (res unit * st) * option (res unit * st) :=
+  let rs1 := session c p rounds inputs s0 in
+  if c_second_run c && c_hook c &&
+     (match fst rs1 with ROk _ => true | RErr (UserExc _) => true | _ => false end)
+  then (rs1, Some (ml_run c [] [] [] (snd rs1)))
+  else (rs1, None).
+
 Definition normal_term (tios : Z) (w t cn : Z) : term :=
   Term false true false false false false false (tios, false) w t cn false.
 Definition fresh_screen : screen := Screen false false false None None None None.
-Definition init_st (t : term) : st := St 0 [] fresh_screen t false false false false [] 0 false None false false false.
+Definition init_st (t : term) : st := St 0 [] fresh_screen t false O O false [] 0 false None false false false.
 
 (* ---------- wire format ----------
    case  = hook, filter [0 | 1 n codes..], unhandled [0 _ | 1 r], handle_mouse, pop_ups, paste, focus, isatty,
            prestarted, pre_alarms [list], selectable, has_mouse, keys [n then n pairs k v], mouse [list], cursor,
-           sig [w t c], launcher, pop_keys [list], plan [n then n pairs idx f]  with f = 0 for Exit, e > 0 for UserExc e,
+           sig [w t c], launcher, pop_keys [list], second_run, plan [n then n pairs idx f]  with f = 0 for Exit, e > 0 for UserExc e,
            body when hook=1: nrounds then per round: nevents then events;
                  event = 1 nkeys key4.. | 2 | 3 id | 4 id data | 5 id
            body when hook=0: ninputs then per input: nkeys key4..
-   reply = outcome [0 0 ok | 1 e | 2 k PyErr | 3 0 cant-use | 4 0 exit], started, ncb, sig [w t c],
-           alt cursor m1000 m1002 m1006 paste focus cbreak plain, ntrace, then items each prefixed by its length *)
+   reply = summary of run 1, [0 | 1 summary of run 2], ntrace of run 1, ntrace, then items each prefixed by its length
+           summary = outcome [0 0 ok | 1 e | 2 k PyErr | 3 0 cant-use | 4 0 exit], started, ncb, sig [w t c],
+                     alt cursor m1000 m1002 m1006 paste focus cbreak plain *)
 Definition dec_key (l : list Z) : option (key * list Z) :=
   match l with
   | 0 :: _ :: _ :: _ :: r => Some (KResize, r)
@@ -642,7 +685,7 @@ Definition enc_tev (t : tev) : list Z :=
   end.
 Definition enc_item (t : tev) : list Z := let e := enc_tev t in zlen e :: e.
 
-Definition enc_result (r : res unit) (s : st) : list Z :=
+Definition enc_summary (r : res unit) (s : st) : list Z :=
   (match r with
    | ROk _ => [0; 0]
    | RErr (UserExc e) => [1; e]
@@ -653,8 +696,15 @@ Definition enc_result (r : res unit) (s : st) : list Z :=
   ++ [enc_bool (s_started (scr s)); n s; t_winch (tm s); t_tstp (tm s); t_cont (tm s);
       enc_bool (t_alt (tm s)); enc_bool (t_cursor (tm s)); enc_bool (t_m1000 (tm s)); enc_bool (t_m1002 (tm s));
       enc_bool (t_m1006 (tm s)); enc_bool (t_paste (tm s)); enc_bool (t_focus (tm s)); enc_bool (snd (t_tios (tm s)));
-      enc_bool (t_plain (tm s))]
-  ++ zlen (tr s) :: flat_map enc_item (rev (tr s)).
+      enc_bool (t_plain (tm s))].
+(* reply = summary of the first run, [0] or 1 :: summary of the second run, length of the first run's trace,
+   then the whole trace *)
+Definition enc_result (x : (res unit * st) * option (res unit * st)) : list Z :=
+  let '((r1, s1), second) := x in
+  let final := match second with Some (_, s2) => s2 | None => s1 end in
+  enc_summary r1 s1 ++
+  (match second with Some (r2, s2) => 1 :: enc_summary r2 s2 | None => [0] end) ++
+  zlen (tr s1) :: zlen (tr final) :: flat_map enc_item (rev (tr final)).
 
 Definition dec_case (l : list Z) : option (config * term * list (Z * fault) * list (list event) * list (list key)) :=
   match dec_bool l with Some (hook, l) =>
@@ -669,11 +719,11 @@ Definition dec_case (l : list Z) : option (config * term * list (Z * fault) * li
         match dec_list l with Some (pre, sel :: hasm :: l) =>
         match dec_counted dec_pair l with Some (wk, l) =>
         match dec_list l with Some (wm, cur :: sw :: st_ :: sc :: lau :: l) =>
-        match dec_list l with Some (pk, l) =>
+        match dec_list l with Some (pk, sr :: l) =>
         match dec_counted dec_fault l with Some (pl, l) =>
           let cfg := Config hook filt unh (negb (hm =? 0)) (negb (pu =? 0)) (negb (pa =? 0)) (negb (fo =? 0))
                             (negb (ia =? 0)) (negb (ps =? 0)) pre (negb (sel =? 0)) (negb (hasm =? 0)) wk wm (negb (cur =? 0))
-                            (negb (lau =? 0)) pk in
+                            (negb (lau =? 0)) pk (negb (sr =? 0)) in
           let t0 := normal_term 0 sw st_ sc in
           if hook then
             match dec_counted (dec_counted dec_event) l with
@@ -686,7 +736,7 @@ Definition dec_case (l : list Z) : option (config * term * list (Z * fault) * li
             | None => None
             end
         | None => None end
-        | None => None end
+        | _ => None end
         | _ => None end
         | None => None end
         | _ => None end
@@ -701,7 +751,6 @@ Definition dec_case (l : list Z) : option (config * term * list (Z * fault) * li
 Definition run_case (l : list Z) : list Z :=
   match dec_case l with
   | Some (cfg, t0, pl, rounds, inputs) =>
-      let '(r, s) := session cfg pl rounds inputs (init_st t0) in
-      enc_result r s
+      enc_result (run_twice cfg pl rounds inputs (init_st t0))
   | None => [-1]
   end.
